@@ -122,7 +122,7 @@ def parse_unit(path):
         node = Node(parts[0], parts[1:], i)
         node.text = heredoc
         stack[-1].children.append(node)
-        if node.kind in ('spec', 'loop', 'top', 'bottom', 'at', 'loopend') and heredoc is None and node.args and node.args[-1].startswith('@'):
+        if node.kind in ('spec', 'loop', 'top', 'bottom', 'at', 'loopend', 'extra', 'raw') and heredoc is None and node.args and node.args[-1].startswith('@'):
             cpath = os.path.join(os.path.dirname(os.path.dirname(os.path.abspath(path))), 'contracts', node.args[-1][1:])
             node.text = open(cpath).read().rstrip('\n')
             node.args = node.args[:-1]
